@@ -21,6 +21,18 @@ ASSUMPTIONS = [
     "normalisation of a defect is conventional (Choi trace d vs 1, row vs trace defect) both readings must agree before a verdict is asserted",
 ]
 
+TECHNIQUE = "property-based testing (Hypothesis): constructed physical / physical+known-defect objects vs refmodel defect magnitudes with verdict margins; metamorphic atol monotonicity"
+LEVEL_TEXT = (
+    "Generated-input search: thousands of constructed objects per run (all four types, four shapes, all rank classes, defects "
+    "from 1e-3*atol to O(1) in named directions, atol in [1e-13,1e-2], explicit and global): every verdict, the constructor "
+    "behaviour, origin/zero objects and the basis-generic branches are compared with defect magnitudes recomputed by an "
+    "independent numpy model.  It cannot prove absence; it reaches the near-threshold and boundary region fixed examples miss."
+)
+LEVEL_NOTE = (
+    "Trusted: numpy LAPACK (eigh/qr), harness/refmodel.py, and the verdict-margin rule (verdicts only asserted when the defect is "
+    "<= atol/10 or >= 10*atol under both normalisation conventions)."
+)
+
 TYPES = ("state", "povm", "gate", "mprocess")
 
 
